@@ -348,9 +348,38 @@ def emit():
         "package test:comp;\nlet a = new test:prov {};\nlet c = new test:cons { zz: a.f, yy: a.f, xx: a.f };\n",
         "package test:comp;\nlet c = new test:cons {};\n",
         "package test:comp;\nimport f: func();\nexport f as \"a\";\nexport f as \"b\";\nexport f as \"a\";\n",
+        # documents that resolve: an interface using types of several other interfaces (the order of the
+        # dependency imports in the output), imported and as the type of a world item
+        "package test:comp;\ninterface a { record ra { x: u32 } }\ninterface b { record rb { y: u32 } }\n"
+        "interface d { record rd { z: u32 } }\ninterface e { record re { w: u32 } }\n"
+        "interface c { use a.{ra}; use b.{rb}; use d.{rd}; use e.{re}; f: func(p: ra, q: rb, r: rd, s: re); }\n"
+        "import x: c;\n",
+        "package test:comp;\ninterface a { record ra { x: u32 } }\ninterface b { record rb { y: u32 } }\n"
+        "interface d { record rd { z: u32 } }\ninterface e { record re { w: u32 } }\n"
+        "interface c { use a.{ra}; use b.{rb}; use d.{rd}; use e.{re}; f: func(p: ra, q: rb, r: rd, s: re); }\n"
+        "world w { import c; }\nimport x: w;\n",
+    ]
+    # implicit imports that cannot be merged, under the same name and under two semver-compatible names, with
+    # two and three instantiations: which instantiation the diagnostic calls the previous one
+    one = '(component (import "a:b/c@0.2.0" (instance (export "f" (func)))))'
+    two = '(component (import "a:b/c@0.2.1" (instance (export "f" (func (param "x" u32))))))'
+    three = '(component (import "a:b/c@0.2.2" (instance (export "f" (func (param "y" string))))))'
+    same = '(component (import "a:b/c@0.2.0" (instance (export "f" (func (param "x" u32))))))'
+    det_pkg_docs = [
+        {"text": "package test:comp;\nlet x = new p:one { ... };\nlet y = new p:two { ... };\n",
+         "packages": {"p:one": one, "p:two": two}},
+        {"text": "package test:comp;\nlet x = new p:one { ... };\nlet y = new p:two { ... };\nlet z = new p:three { ... };\n",
+         "packages": {"p:one": one, "p:two": two, "p:three": three}},
+        {"text": "package test:comp;\nlet x = new p:one { ... };\nlet y = new p:same { ... };\n",
+         "packages": {"p:one": one, "p:same": same}},
+        # an explicit import that cannot be merged with the implicit imports of several instantiations that
+        # use different, semver-compatible names of it
+        {"text": "package test:comp;\nimport i as \"a:b/c@0.2.3\": interface { f: func(x: u32); };\n"
+                 "let x = new p:one { ... };\nlet y = new p:more { ... };\nlet z = new p:most { ... };\n",
+         "packages": {"p:one": one, "p:more": one.replace("0.2.0", "0.2.1"), "p:most": one.replace("0.2.0", "0.2.2")}},
     ]
     with open(os.path.join(ROOT, "harness", "data", "det_docs.json"), "w") as f:
-        json.dump([{"text": t} for t in det_docs], f, indent=1)
+        json.dump([{"text": t} for t in det_docs] + det_pkg_docs, f, indent=1)
         f.write("\n")
     return len(stmts)
 
